@@ -85,6 +85,35 @@ def run(ctx):
     ctx.evaluations += sruns
     ctx.nontrivial += sruns
     mm.tinv(ctx, "ctr", 20000 if ctx.thorough() else 6000)
+    # the command itself, on one CPU: whatever cleans up must have happened when the process exits (a clean-up handed to a
+    # detached task or thread gets no turn before exit when there is a single CPU) - no temp file left, counts as on many CPUs
+    import hashlib, shutil
+    cli = vlib.build_cli()
+    cin = ctx.path("pin.fa")
+    vlib.kvh(["gen", "fasta", ctx.seed + 5, 12, 200, cin])
+    evs = []
+    ref = None
+    for j in range(60 if ctx.thorough() else 24):
+        od = ctx.path("pin_out")
+        shutil.rmtree(od, ignore_errors=True)
+        pinned = j > 0
+        cmd = (["taskset", "-c", "0"] if pinned else []) + [cli, "ctr", "-i", cin, "-o", od, "-k", "10", "-t", str([2, 4, 8][j % 3])]
+        p = vlib.sh(cmd, timeout=300)
+        left = sorted(f for f in os.listdir(od) if f.startswith("temp_")) if os.path.isdir(od) else ["no output directory"]
+        cf = os.path.join(od, "kmers.counts")
+        dig = hashlib.sha256(b"\n".join(sorted(open(cf, "rb").read().split(b"\n")))).hexdigest()[:16] if os.path.exists(cf) else "missing"
+        got = "exit %s, %d temp files left, counts %s" % (p.returncode, len(left), dig)
+        if ref is None:
+            ref = got
+        else:
+            evs.append({"ev": "eq", "what": "ctr on one CPU (taskset -c 0), run %d: exit status, left-over temp files, counts" % j, "a": ref, "b": got})
+        shutil.rmtree(od, ignore_errors=True)
+    pe = ctx.path("pinned.ndjson")
+    with open(pe, "w") as f:
+        for e in evs:
+            f.write(json.dumps(e) + "\n")
+        f.write('{"ev":"eof"}\n')
+    vlib.validate_trace(ctx, "FactsTrace", pe, "the ctr command pinned to one CPU: nothing temporary left at exit, same counts", "eq")
     many = ctx.path("many.ndjson")
     vlib.kvh(["trace", "many", ctx.seed, ctx.rundir, 70000, "ctr"], out=many)
     vlib.validate_trace(ctx, "FactsTrace", many, "70 000 records from a pool of 12, several chunks: every count judged", "manyctr")
